@@ -84,6 +84,14 @@ theorem C03_swap_distinct (a c : List Op) (k1 k2 : Key) (v1 v2 : Val) (hne : k1 
     · subst h2; simp [finalFrom, Ne.symm hne]
     · simp [finalFrom, h1, h2]
 
+/-- corollary: any permutation of a block of writes to pairwise distinct keys (deletions are writes of the empty
+value), after any history and before any continuation, leaves the same write set -/
+theorem C03_perm_distinct (a c : List Op) (ws1 ws2 : List KV) (hp : ws1.Perm ws2) (hnd : (ws1.map (·.1)).Nodup) :
+    run (a ++ putOps ws1 ++ c) = run (a ++ putOps ws2 ++ c) := by
+  apply C03_final_content
+  intro q
+  rw [finalOf_append, finalOf_append, finalOf_append, finalOf_append, finalFrom_puts_perm hp hnd]
+
 /-! ### Non-vacuity and concrete instances -/
 example : run [.put [1] [7], .put [0, 255] [8], .del [1], .put [] [9], .put [1] [5]]
     = [([], [9]), ([0, 255], [8]), ([1], [5])] := by decide
@@ -96,6 +104,8 @@ example : ∀ k, finalOf [.put [1] [5], .del [2]] k = finalOf [.del [2], .put [1
   · by_cases h2 : k = [2]
     · subst h2; decide
     · simp [finalOf, finalFrom, h1, h2]
+example : run ([.put [9] [1]] ++ putOps [([1], [5]), ([2], []), ([], [7])] ++ [.del [9]])
+    = run ([.put [9] [1]] ++ putOps [([], [7]), ([1], [5]), ([2], [])] ++ [.del [9]]) := by decide
 /-- a tombstone is content: deleting an untouched key is *not* the same as not touching it -/
 example : run [.del [3]] ≠ run [] := by decide
 
